@@ -224,7 +224,7 @@ class Observer(watchdog_events.FileSystemEventHandler):
 
 # uncomment for too-heavy debugging
 #        log.debug("raw event %s %s", id(self), event)
-        for cb in self.callbacks:
+        for cb in list(self.callbacks):
             try:
                 cb(event)
             except Exception:
